@@ -90,7 +90,8 @@ static bool is_directive(Token *tok, char *name) {
 // Some preprocessor directives such as #include allow extraneous
 // tokens before newline. This function skips such tokens.
 static Token *skip_line(Token *tok) {
-  if (tok->at_bol)
+  // The end marker of a copied line (copy_line) is not at_bol.
+  if (tok->at_bol || tok->kind == TK_EOF)
     return tok;
   warn_tok(tok, "extra token");
   while (!tok->at_bol && tok->kind != TK_EOF)
